@@ -6,6 +6,7 @@ fault position (the k-th socket send/receive raises, or the peer vanishes from t
 policy.  Plus one-step obligations from the directly constructed 'connected' state (inductive step for the
 state every successful history reaches)."""
 from vlib.ob import Registry
+from vlib.sym import concrete
 from vlib import scen, chplugin
 from vlib.tspec import vec_fn, vec_pre
 import pycomm3.cip_driver as CD
@@ -161,8 +162,8 @@ def run_history(ops, fault_at, kind, pol):
 def _mk_history(n, first):
     def body(xs):
         try:
-            ops = [first] + list(xs[:n - 1])
-            return run_history(ops, xs[n - 1], xs[n], xs[n + 1])
+            ops = [first] + [concrete(x) for x in xs[:n - 1]]
+            return run_history(ops, xs[n - 1], concrete(xs[n]), concrete(xs[n + 1]))
         except Exception as e:
             return "exc:" + type(e).__name__ + ":" + str(e)[:80]
     return body
@@ -192,7 +193,7 @@ def _mk_step(cs):
             sk = Sock(target, sh)
             d = scen.make_driver(target, cs=cs, tags=TAGS, sock=sk)
             sk._granted.append(d._session)
-            name = OPS[op]
+            name = OPS[concrete(op)]
             try:
                 if name == "open":
                     d.open()
